@@ -42,4 +42,9 @@ SatOK ==
     IN /\ F = {a \in Univ(3) : Bit(tt, a + 1)}
        /\ {NameIdx(s, s.order[l + 1]) : l \in SupportLevels(s, b.r)} = sup
        /\ \A nv \in k..5 : CountModels(s, b.r, nv) = CountF(3, F, nv)
+       \* _sat_iter: the cubes are implicants, pairwise disjoint, and cover exactly the models
+       /\ LET C == SatCubes(s, b.r) IN
+            /\ UNION {CubeByLevel(s, c) : c \in C} = F
+            /\ \A c, d \in C : c # d => CubeByLevel(s, c) \cap CubeByLevel(s, d) = {}
+            /\ \A c \in C : CubeByLevel(s, c) # {}
 ====
